@@ -482,7 +482,8 @@ Units == [op : {"fail"}, c : 1..NC, s : 1..(NS - 2), v : {0}]     \* all stages 
 (*   val   "d": the value is D;  "lit": the literal `lit`;  "": the value  *)
 (*         is not compared (only: returns or error value, then the probe)  *)
 (*   maxd  largest depth index generated (depth = 10^(index+1))            *)
-SlowFamilies == {"nest-let", "nest-define", "wide-letstar", "nest-cond", "wide-cond", "nest-macro-use"}
+SlowFamilies == {"nest-let", "nest-define", "wide-letstar", "nest-cond", "wide-cond", "nest-macro-use",
+                 "nest-quoted-vector", "nest-when", "nest-and", "nest-quasi-tick", "rec-via-eval"}
 F(n, pre, a, mid, b, post, val, lit, maxd) ==
   [n |-> n, pre |-> pre, a |-> a, mid |-> mid, b |-> b, post |-> post, val |-> val, lit |-> lit, maxd |-> maxd,
    slow |-> (n \in SlowFamilies)]
@@ -644,7 +645,7 @@ DeepPick ==
           /\ di <= Families[i].maxd /\ (Families[i].slow => di <= MAXDSLOW)
           /\ fi' = i /\ ar' = di /\ fam' = "text"
      \/ \E i \in 1..Len(Recursions) : \E di \in 2..MAXD :
-          /\ di <= Recursions[i].maxd
+          /\ di <= Recursions[i].maxd /\ (Recursions[i].n \in SlowFamilies => di <= MAXDSLOW)
           /\ fi' = i /\ ar' = di /\ fam' = "rec"
      \/ MAXD >= 4 /\ fi' = 0 /\ ar' = 40000 /\ fam' = "units"
   /\ phase' = "done" /\ UNCHANGED <<args, hist, G>>
